@@ -317,8 +317,19 @@ impl Prop for C15 {
 			if run.ex.world.is_open(w) {
 				let snap = run.ex.world.snap(w);
 				let truth = run.ex.world.truth(w);
+				// a scan told to start at a height looks at the blocks from there on: paths
+				// of outputs in earlier blocks it was told to skip (and does not hold a
+				// record of) are not "found on chain" by this wallet
+				let from = match &step.op {
+					Op::Scan { start, .. } => start.unwrap_or(0),
+					_ => 0,
+				};
 				let mut max_on_chain: BTreeMap<String, u32> = BTreeMap::new();
 				for t in &truth {
+					if t.height < from && !snap.outputs.iter().any(|o| o.key_id == t.key_id) {
+						run.cov.not_judged("path_below_the_start_height_of_a_partial_scan");
+						continue;
+					}
 					let n = t.key_id.to_path().last_path_index();
 					let e = max_on_chain.entry(t.acct.to_hex()).or_insert(0);
 					if n >= *e {
